@@ -20,7 +20,12 @@ import (
 	"github.com/buchgr/bazel-remote/v2/verifdrv/vlib"
 )
 
-var c15Instances = []string{"", "a", "a/b", "ac", "cas", "x/ac/y", "blobs", "uploads", "ü", "a b", "A", "a/b/c"}
+// the last four: long, deeply nested names that agree in their first 63 / 64 / 65 / 100 bytes
+var c15Long = "org/department/team/project/subproject/component/module/variant/"
+
+var c15Instances = []string{"", "a", "a/b", "ac", "cas", "x/ac/y", "blobs", "uploads", "ü", "a b", "A", "a/b/c",
+	c15Long[:62] + "/x", c15Long[:62] + "/y", c15Long[:63] + "x", c15Long[:63] + "y", c15Long + "x", c15Long + "y",
+	c15Long + "deeper/and/deeper/and/deeper/still/1", c15Long + "deeper/and/deeper/and/deeper/still/2"}
 
 func acURL(instance, key string) string {
 	if instance == "" {
